@@ -204,6 +204,9 @@ def run(ctx):
     corpus = [c for c in c07.corpus_files() if len(c[3]) <= (25_000 if not ctx.thorough else 400_000)]
     if not ctx.thorough:
         corpus = corpus[::3]
+    # a trajectory whose name suggests another readable format than the one given with -i (plain XYZ would take the force columns for positions)
+    ext = "".join(f"2\nProperties=species:S:1:force:R:3:pos:R:3 energy={-1.5 - k}\nO {0.01 * k:.8f} 0.02000000 -0.03000000 {0.1 * k:.8f} 0.00000000 0.25000000\nH -0.01000000 0.00000000 0.03000000 0.00000000 {0.9 + 0.1 * k:.8f} -0.50000000\n" for k in range(3))
+    gen = gen + [("generated", "forces_first.xyz", "extxyz", ext)]
     inputs = gen + corpus
     jobs = []
     for (origin, fname, infmt_needed, text) in inputs:
